@@ -663,7 +663,9 @@ def header_of(blk):
 
 
 def generate(unit, vacuity=False):
-    """Return (text, meta).  meta: fns, types, stubs, line map."""
+    """Return (text, meta).  meta: fns, types, stubs, line map.
+    vacuity: False | True (all fn blocks get `ensures false`) | int k = only the k-th fn block (0-based)
+    encoded as k (compared with the number of blocks emitted so far); use generate_vacuity(unit, k)."""
     path = os.path.join(VERIF, 'units', unit + '.vu')
     if not os.path.exists(path):
         raise ExtractError('no such unit: %s' % unit)
@@ -676,7 +678,7 @@ def generate(unit, vacuity=False):
             continue
         if it.kind == 'fn':
             ls, meta = apply_fn_block(it, None)
-            if vacuity:
+            if vacuity is True or (isinstance(vacuity, tuple) and vacuity[1] == len(fns)):
                 ls = add_vacuity(ls)
             meta['gen_start'] = len(out) + 1
             out.extend(ls)
@@ -707,6 +709,11 @@ def generate(unit, vacuity=False):
                 f = os.path.relpath(f, VERIF)
             linemap.append([f, n, l.kind])
     return text, {'unit': unit, 'fns': fns, 'types': types, 'stubs': stubs, 'linemap': linemap}
+
+
+def generate_vacuity(unit, k):
+    """Variant in which ONLY the k-th (0-based) fn block has `ensures false` (callers must not see it)."""
+    return generate(unit, vacuity=('only', k))
 
 
 def add_vacuity(ls):
